@@ -252,6 +252,7 @@ func powExponents() []*big.Int {
 	}
 
 	out = append(out, alpha.DomainConstants(n)...)
+	out = append(out, alpha.StoredNeighbours(n)...)
 
 	for _, l := range [][4]uint64{{5, 0, 7, 0}, {5, 0, 0, 7}, {0, 9, 0, 7}, {^uint64(0), 0, 0, 1}} {
 		out = append(out, ref.FromLimbs(l))
